@@ -56,6 +56,7 @@ ActOf(e) ==
   [name |-> e.act, node |-> i, inc |-> e.inc, ret |-> e.ret, panic |-> e.panic,
    pre |-> IF i \in Node THEN node[i] ELSE DownNode,
    preDisk |-> IF i \in Node THEN disk[i] ELSE EmptyDisk,
+   preSD |-> IF i \in Node THEN app[i].sd ELSE EmptyDisk,
    msg |-> ArgMsg(e),
    sent |-> ArgSeq(e, "msgs"),
    stepped |-> IF e.act = "Advance" /\ i \in Node THEN node[i].soa ELSE ArgSeq(e, "stepped"),
@@ -64,9 +65,13 @@ ActOf(e) ==
    pid |-> ArgNum(e, "pid"), psz |-> ArgNum(e, "psz"), rid |-> ArgNum(e, "rid"), to |-> ArgNum(e, "to"), k |-> ArgNum(e, "k"),
    keep |-> ArgBool(e, "keep"), det |-> e.det]
 
+\* sd: the synced image of the storage (what certainly survives a crash); equals the live
+\* storage unless writes that need no fsync are outstanding
 AppOf(e, old) ==
-  e.p @@ [rd |-> IF HasF(e, "rd") THEN e.rd ELSE IF e.p.phase = "idle" THEN NoReady ELSE old.rd,
-          created |-> TRUE]
+  [phase |-> e.p.phase, appendQ |-> e.p.appendQ, applyQ |-> e.p.applyQ, appliedDurable |-> e.p.appliedDurable,
+   inc |-> e.p.inc, lastConfIdx |-> e.p.lastConfIdx, appConf |-> e.p.appConf, created |-> e.p.created,
+   rd |-> IF HasF(e, "rd") THEN e.rd ELSE IF e.p.phase = "idle" THEN NoReady ELSE old.rd,
+   sd |-> IF HasF(e.p, "sd") THEN e.p.sd ELSE e.d]
 
 NetOf(e) ==
   LET added == BagAddAll(net, NoMids(ArgSeq(e, "msgs")))
@@ -177,6 +182,9 @@ ObsNext ==
   /\ LET bad == Failing'
      IN  /\ viol' = viol \cup {<<l + 1, nm>> : nm \in bad}
          /\ \A nm \in bad : PrintT(<<"OBS-VIOLATION", nm, "line", l + 1, "tr", Trace[l + 1].tr, "act", Trace[l + 1].act, "node", Trace[l + 1].node>>)
+
+\* every observed state is identified by its position in the trace file
+ObsView == l
 
 ObsSpec == ObsInit /\ [][ObsNext]_ovars
 
